@@ -243,41 +243,42 @@ PENDING = {
 
 # what the searches cover beyond the texts above (added as the seeded-change rounds and the fix reverts asked for it)
 ADDED = {
+    "C03": "Also in the search: datasets that share their last dimension by name (knob shareddims).",
     "C01": "Also in the search: HLconvert on an element that has a descriptor and no data yet, before its first byte.",
     "C02": "Also in the search: datasets stored low byte first, the largest reference number in use and elements stored "
-           "under references the library hands out (mixed workload).",
+           "under references the library hands out (mixed workload). An element promoted to linked blocks before its first byte; fill-mode switches.",
     "C05": "Also in the search: compressing an element that holds plain data already, then reading or rewriting it through "
-           "the returned id.",
+           "the returned id. One access id walks all elements of the tag with Hnextread: on each it starts at position 0 and a read of the rest gives the whole element; the walk ends with Hendaccess.",
     "C07": "Also in the search: field names that are prefixes of one another, names of 124..128 characters, fields defined "
-           "in descending name order.",
+           "in descending name order. A refused VSsetinterlace on a Vdata that holds records changes nothing; fields defined in another order than the field list (reverse, or behind a field that is never used).",
     "C08": "Also in the search: names that are prefixes of one another, inserting handles of another file (refused), "
-           "Vgetnext against the member list, names longer than 65535 characters (refused, nothing changes).",
+           "Vgetnext against the member list, names longer than 65535 characters (refused, nothing changes). Vgetvgroups on a vgroup: windows (start, n) and counts agree with the whole list, which follows the member order.",
     "C09": "Also in the search: little-endian number types, sub-sampled writes, sub-sampled region reads of legacy RLE images, "
-           "image names that are prefixes of one another.",
+           "image names that are prefixes of one another. Palette reads without a requested interlace (what was asked for last in this open of the file, else pixel).",
     "C10": "Also in the search: 8-bit character attributes, dimension names that are prefixes or word permutations of one "
            "another, datasets sharing a dimension created in either order, refused SDsetdimname (size conflict) and "
-           "SDsetdimscale (wrong count) that must change nothing.",
+           "SDsetdimscale (wrong count) that must change nothing. Vdata/Vgroup attributes with the little-endian variant of a type (a re-set that differs only in byte order is refused, the old value stays); a scale on an unlimited dimension stays what was set while the dataset grows.",
     "C11": "Also in the search: bursts of 14..52 annotations on one object, ANreadann with a buffer shorter than the text, a "
            "second ANcreate before the first annotation is written (refused, leaves no trace), the DFAN calls on a file "
            "that does not exist yet.",
     "C12": "Also in the search: a duplicate onto a name that exists (refused, nothing changes), every reference of a tag up "
            "to 8k+7 in use except 8k, and a reference handed out and not used yet (asked for twice in a row, or again "
-           "after reference 65535 was taken) is not handed out again.",
+           "after reference 65535 was taken) is not handed out again. Hdupdd without a source is refused and leaves no descriptor.",
     "C13": "Also in the search: 3..12 further entry points per interface tried with stale, wrong-kind and never-issued "
            "ids; opening a missing file and a file that is no HDF file; 257..264 files open at once; ids that share a "
-           "chain of the id table released in any order; a call that fails half way releases what it attached.",
+           "chain of the id table released in any order; a call that fails half way releases what it attached. Two files whose ids share a chain of the id table, the older one opened again (a creating open of an open file is refused); one vgroup attached twice at the same time, for writing and for reading.",
     "C14": "70 mutators incl. whole-chunk writes, Hsetlength/Happendable on a read id, SDstart/Hopen on a file that is no "
            "HDF file, GRwriteimage on a run-length encoded image of the old raster interface; a second client holding the file open for writing during phase B (SD calls); files whose version "
            "element the application removed; in phase C a reader half way through an element while the file is opened "
-           "for writing goes on and gets the element's bytes.",
+           "for writing goes on and gets the element's bytes. Htrunc through the reader's access id once the file is open for writing; a read that ends behind the data is refused and leaves nothing for the close of the read-only id to store.",
     "C16": "The first 18 programs of every batch are directed (one per storage layout incl. external files shared by two "
            "datasets, dataset ids left open at SDend, a reader open while the stream is swapped for a writable one); "
-           "sticky faults start at reads as well as writes.",
+           "sticky faults start at reads as well as writes. Every closed session is a workload of its own: a fault after which every call up to that close reports success must leave the file the fault-free run leaves at that point, whatever a later session reports; fill-mode switches (which store the file's description in mid-session) are in the workload, one directed program is built on them.",
     "C17": "Also: the write that starts the flush must come from the descriptor sync (HTPsync), whatever caused it; the "
-           "workload uses the largest reference number and stores elements under references the library hands out.",
+           "workload uses the largest reference number and stores elements under references the library hands out. Directed sessions that add one dataset without data to an SD-only file; the write that starts the flush must be caused by Hsync/Hclose (HIsync or HTPend in its call chain), not by some call on the way.",
     "C20": "Also in the search: a vgroup name/class that is refused leaves the old one; a field name in a list behaves as "
            "the same name alone; seeks and lengths around 2^31-1 inside one element; unlimited datasets with records of "
-           "8..33 million values (starts of records written).",
+           "8..33 million values (starts of records written). A coordinate variable that would be 4 GiB (SDsetdimstrs on a dimension of 2^30 one-byte cells) is refused and leaves no dataset behind.",
 }
 for _k, _v in ADDED.items():
     CHECKS[_k]["text"] += " " + _v
